@@ -640,3 +640,33 @@ Fixpoint clock_ahead (st : idstate) (ops : list idop) : Prop :=
     memory.  [load_disabled = true] is the refuted variant. *)
 Definition start_sum (load_disabled : bool) (sum : data -> N) (enabled : bool) (file : option data) : N :=
   if enabled || load_disabled then match file with Some c => sum c | None => 0 end else 0.
+
+(** ** Round 8 (O): remove_url and the files of the OTHER lists
+
+    handleFilteringRemoveURL: the entry at index [k] of its array is looked up,
+    ITS file <id>.txt is renamed to <id>.txt.old (a missing file is tolerated,
+    another error leaves everything as it was), then the entry is deleted from
+    the array.  Result: the array afterwards and the id whose file was renamed
+    away.  [after_delete = true] is the refuted variant: the path is computed
+    through a pointer into the array AFTER slices.Delete shifted the tail, so
+    it is the path of the FOLLOWING list. *)
+Definition remove_at (arr : list N) (k : nat) : list N := firstn k arr ++ skipn (S k) arr.
+
+Definition remove_list (after_delete : bool) (arr : list N) (k : nat) : list N * option N :=
+  match nth_error arr k with
+  | None => (arr, None)                       (* no such list: nothing happens *)
+  | Some id =>
+      let arr' := remove_at arr k in
+      (arr', if after_delete then nth_error arr' k else Some id)
+  end.
+
+(** ** Round 8 (P): the updater's copy of supporting files
+
+    updater.copySupportingFiles copies entries of the update package over the
+    files of the working directory IN PLACE (os.WriteFile: the only raw
+    in-place writer whose destination directory holds one of the property's
+    files), by base name; it skips the names of the executable and of the
+    configuration file.  Names as codes: 0 AdGuardHome, 1 AdGuardHome.exe,
+    2 AdGuardHome.yaml, 3 and above: anything else.  (The lease database and
+    the list files live below data/, which a base name cannot reach.) *)
+Definition supporting_skipped (name_code : N) : bool := name_code <? 3.
